@@ -1,23 +1,33 @@
 // c06 — dereplication: drains the REAL obichunk.IUniqueSequence on an explicit multiset of records.
 //
 // A case gives the records in arrival order (id, sequence, count (0 = no count attribute), plain
-// attributes (string / integer / boolean), already merged `merged_<k>` maps and the Go type used to
+// attributes (any JSON value: string / integer / float / boolean / list / map / null), an explicit
+// count attribute (possibly 0 or negative), already merged `merged_<k>` maps and the Go type used to
 // store them) and the configuration (memory / disk, number of hash chunks, workers, category
-// attributes, merge attributes, NA value, no-singleton, input batch size). The observation is the
-// list of output records: id, sequence, Count(), every `merged_*` map (read by a type switch),
-// every other annotation rendered with its kind (string quoted, numbers through %v).
+// attributes, merge descriptors key or key:weight, NA value, no-singleton, input batch size). The
+// observation is the list of output records: id, sequence, Count(), every `merged_*` map (read by a
+// type switch), every other annotation rendered with its kind (string quoted, numbers through %v)
+// and typed (c06Typed); the typed view of every INPUT record as the Go code sees it (tin); for an
+// on-disk case every chunk file as re-read by the implementation (reread, through the verif tap
+// obichunk.VerifChunkRead). A log.Fatal of the library is intercepted (kind "fatal").
 package main
 
 import (
 	"bufio"
+	"encoding/json"
 	"fmt"
 	"math"
+	"path/filepath"
 	"runtime"
 	"sort"
 	"strings"
+	"sync"
 	"time"
 
+	log "github.com/sirupsen/logrus"
+
 	"git.metabarcoding.org/obitools/obitools4/obitools4/pkg/obichunk"
+	"git.metabarcoding.org/obitools/obitools4/obitools4/pkg/obiformats"
 	"git.metabarcoding.org/obitools/obitools4/obitools4/pkg/obiiter"
 	"git.metabarcoding.org/obitools/obitools4/obitools4/pkg/obioptions"
 	"git.metabarcoding.org/obitools/obitools4/obitools4/pkg/obiseq"
@@ -32,6 +42,8 @@ type c06Rec struct {
 	Merged map[string]map[string]int `json:"merged"`
 	MK     string                    `json:"mk"` // stats | int | iface : Go type of the merged maps
 	Qual   string                    `json:"qual,omitempty"` // phred values as bytes (same length as seq); "" = no qualities
+	CCount *int                      `json:"ccount,omitempty"` // explicit count attribute, any integer (0, negative): overrides Count
+	NF     bool                      `json:"nf,omitempty"`     // numbers are stored as float64 (as the JSON header reader leaves them) instead of int (as the OBI header reader does)
 }
 
 type c06Case struct {
@@ -50,6 +62,27 @@ type c06Case struct {
 	DL          int      `json:"dl"`     // deadline ms
 	Procs       int      `json:"procs"`  // >0: runtime.GOMAXPROCS for this case (1 makes the schedule adversarial for writers)
 	Spin        int      `json:"spin"`   // number of busy goroutines competing for the processors during the case
+	WDelay      int      `json:"wdelay"` // on disk: every chunk file is completed (flushed, closed) this many ms late
+	Echo        bool     `json:"echo"`   // report the typed view of the inputs and of the re-read chunk files
+}
+
+// c06TVal is the typed view of an attribute value, as the Go code under test sees it.
+type c06TVal struct {
+	Tag   int     `json:"tag"`   // 0 string, 1 int, 2 float64, 3 bool, 4 composite, 5 nil
+	Print string  `json:"print"` // fmt.Sprint (strings as they are): what AnnotationClassifier compares
+	Exact string  `json:"exact"` // canonical JSON (strings as they are): with Tag, what == / reflect.DeepEqual compare
+	Stat  *string `json:"stat"`  // key used by StatsPlusOne; null = log.Fatalf
+	Int   *int    `json:"int"`   // obiutils.InterfaceToInt; null = not a number
+}
+
+type c06TRec struct {
+	Id     string                    `json:"id"`
+	Seq    string                    `json:"seq"`
+	Count  int                       `json:"count"`
+	Attrs  map[string]c06TVal        `json:"attrs"`
+	Merged map[string]map[string]int `json:"merged"`
+	Qual   string                    `json:"qual,omitempty"`
+	Chunk  string                    `json:"chunk,omitempty"` // re-read records: the file they come from (chunk_<code>)
 }
 
 type c06Out struct {
@@ -58,14 +91,70 @@ type c06Out struct {
 	Count  int                       `json:"count"`
 	Merged map[string]map[string]int `json:"merged"`
 	Ann    map[string]string         `json:"ann"`
+	TAnn   map[string]c06TVal        `json:"tann,omitempty"`
 	Qual   bool                      `json:"qual,omitempty"`
 }
 
 type c06Obs struct {
 	Kind  string   `json:"kind"` // ok | panic | timeout | error
 	Err   string   `json:"err,omitempty"`
-	Recs  []c06Out `json:"recs"`
-	NRecs int      `json:"nrecs"`
+	Recs   []c06Out  `json:"recs"`
+	NRecs  int       `json:"nrecs"`
+	TIn    []c06TRec `json:"tin,omitempty"`
+	Reread []c06TRec `json:"reread,omitempty"`
+	NFiles int       `json:"nfiles,omitempty"`
+}
+
+func c06Typed(v interface{}) c06TVal {
+	str := func(s string) *string { return &s }
+	num := func(i int) *int { return &i }
+	switch t := v.(type) {
+	case string:
+		return c06TVal{Tag: 0, Print: t, Exact: t, Stat: str(t)}
+	case bool:
+		return c06TVal{Tag: 3, Print: fmt.Sprint(t), Exact: fmt.Sprint(t), Stat: str(fmt.Sprint(t))}
+	case int:
+		return c06TVal{Tag: 1, Print: fmt.Sprint(t), Exact: fmt.Sprint(t), Stat: str(fmt.Sprint(t)), Int: num(t)}
+	case float64:
+		ex, _ := json.Marshal(t)
+		r := c06TVal{Tag: 2, Print: fmt.Sprint(t), Exact: string(ex), Int: num(int(t))}
+		if math.Floor(t) == t {
+			r.Stat = str(fmt.Sprint(int(t)))
+		}
+		return r
+	case nil:
+		return c06TVal{Tag: 5, Print: fmt.Sprint(t), Exact: "null"}
+	default:
+		ex, _ := json.Marshal(t)
+		return c06TVal{Tag: 4, Print: fmt.Sprint(t), Exact: string(ex)}
+	}
+}
+
+// typed view of a record (Count() may rewrite a float64 count attribute as an int, which Merge would do as well)
+func c06TypedRec(s *obiseq.BioSequence) c06TRec {
+	r := c06TRec{Id: s.Id(), Seq: s.String(), Count: s.Count(), Attrs: map[string]c06TVal{}, Merged: map[string]map[string]int{}}
+	if s.HasQualities() {
+		q := make([]byte, len(s.Qualities()))
+		for i, x := range s.Qualities() {
+			q[i] = x + 33
+		}
+		r.Qual = string(q)
+	}
+	if s.HasAnnotation() {
+		for k, v := range s.Annotations() {
+			if strings.HasPrefix(k, "merged_") {
+				if m, ok := c06IntMap(v); ok {
+					r.Merged[k[len("merged_"):]] = m
+					continue
+				}
+			}
+			if k == "count" {
+				continue
+			}
+			r.Attrs[k] = c06Typed(v)
+		}
+	}
+	return r
 }
 
 func c06Render(v interface{}) string {
@@ -101,7 +190,7 @@ func c06Build(r c06Rec) *obiseq.BioSequence {
 	for _, k := range keys {
 		switch t := r.Attrs[k].(type) {
 		case float64:
-			if math.Floor(t) == t {
+			if math.Floor(t) == t && !r.NF {
 				s.SetAttribute(k, int(t))
 			} else {
 				s.SetAttribute(k, t)
@@ -135,6 +224,9 @@ func c06Build(r c06Rec) *obiseq.BioSequence {
 	if r.Count > 0 {
 		s.SetAttribute("count", r.Count)
 	}
+	if r.CCount != nil {
+		s.SetAttribute("count", *r.CCount)
+	}
 	return s
 }
 
@@ -167,7 +259,7 @@ func c06IntMap(v interface{}) (map[string]int, bool) {
 }
 
 func c06Observe(s *obiseq.BioSequence) c06Out {
-	o := c06Out{Id: s.Id(), Seq: s.String(), Count: s.Count(), Merged: map[string]map[string]int{}, Ann: map[string]string{}, Qual: s.HasQualities()}
+	o := c06Out{Id: s.Id(), Seq: s.String(), Count: s.Count(), Merged: map[string]map[string]int{}, Ann: map[string]string{}, TAnn: map[string]c06TVal{}, Qual: s.HasQualities()}
 	if s.HasAnnotation() {
 		for k, v := range s.Annotations() {
 			if strings.HasPrefix(k, "merged_") {
@@ -180,16 +272,84 @@ func c06Observe(s *obiseq.BioSequence) c06Out {
 				continue
 			}
 			o.Ann[k] = c06Render(v)
+			o.TAnn[k] = c06Typed(v)
 		}
 	}
 	return o
 }
 
+// c06Where: the frames of the panicking goroutine below the runtime (file:line only)
+func c06Where() string {
+	pcs := make([]uintptr, 24)
+	n := runtime.Callers(3, pcs)
+	fr := runtime.CallersFrames(pcs[:n])
+	out := []string{}
+	for {
+		f, more := fr.Next()
+		if !strings.HasPrefix(f.Function, "runtime.") {
+			out = append(out, fmt.Sprintf("%s:%d", filepath.Base(f.File), f.Line))
+		}
+		if !more || len(out) >= 6 {
+			break
+		}
+	}
+	return strings.Join(out, " < ")
+}
+
+var c06Mu sync.Mutex
+var c06Fatal chan string // receives the message of an intercepted log.Fatal
+
 func c06run(c c06Case) (o c06Obs) {
 	defer func() {
 		if r := recover(); r != nil {
-			o = c06Obs{Kind: "panic", Err: fmt.Sprint(r)}
+			o = c06Obs{Kind: "panic", Err: fmt.Sprint(r) + " @ " + c06Where()}
 		}
+	}()
+	// log.Fatal* of the library (StatsPlusOne on a float / composite value) ends the goroutine instead of the process
+	fatal := make(chan string, 16)
+	c06Mu.Lock()
+	c06Fatal = fatal
+	c06Mu.Unlock()
+	log.StandardLogger().ExitFunc = func(int) {
+		c06Mu.Lock()
+		ch := c06Fatal
+		c06Mu.Unlock()
+		select {
+		case ch <- "log.Fatal":
+		default:
+		}
+		runtime.Goexit()
+	}
+	var tin, reread []c06TRec
+	nfiles := 0
+	if c.Echo {
+		for _, r := range c.Recs {
+			tin = append(tin, c06TypedRec(c06Build(r)))
+		}
+	}
+	var rmu sync.Mutex
+	if c.Disk && c.Echo {
+		obichunk.VerifChunkRead = func(file string, chunk obiseq.BioSequenceSlice) {
+			rmu.Lock()
+			defer rmu.Unlock()
+			nfiles++
+			name := strings.TrimSuffix(filepath.Base(file), ".fastx")
+			for _, s := range chunk {
+				t := c06TypedRec(s)
+				t.Chunk = name
+				reread = append(reread, t)
+			}
+		}
+	} else {
+		obichunk.VerifChunkRead = nil
+	}
+	// both writers a chunk file can go through: the synchronous one of obichunk, the asynchronous one of obiformats
+	obichunk.VerifChunkWriteDelay = time.Duration(c.WDelay) * time.Millisecond
+	obiformats.VerifCloseDelay = time.Duration(c.WDelay) * time.Millisecond
+	defer func() {
+		rmu.Lock()
+		o.TIn, o.Reread, o.NFiles = tin, reread, nfiles
+		rmu.Unlock()
 	}()
 	if c.Procs > 0 {
 		old := runtime.GOMAXPROCS(c.Procs)
@@ -308,6 +468,8 @@ func c06run(c c06Case) (o c06Obs) {
 			return c06Obs{Kind: "error", Err: r.err}
 		}
 		return c06Obs{Kind: "ok", Recs: r.recs, NRecs: len(r.recs)}
+	case msg := <-fatal:
+		return c06Obs{Kind: "fatal", Err: msg}
 	case <-time.After(time.Duration(dl) * time.Millisecond):
 		return c06Obs{Kind: "timeout"}
 	}
